@@ -328,6 +328,13 @@ def rule_buf(fx, out):
                 typegate = [c for c in gates if re.search(r'itemsize|PyFormat|format\b.*(==|strcmp)', c) and not re.search(r"format\[0\]==", c)]
                 bad = []
                 if not sizegate: bad.append('the byte count %s is not compared with the size of the allocation' % size)
+                else:
+                    # "rejecting buffers whose size does not match": the copy must be unreachable for a smaller AND for a larger
+                    # byte count - an equality gate (or both strict orders), not a one-sided bound
+                    eq = [c for c in sizegate if '==' in c and not f.reaches(e, {c: False})]
+                    lt_ = [c for c in sizegate if re.search(r'(?<![<>=!])<(?![<=])', c)]; gt_ = [c for c in sizegate if re.search(r'(?<![<>=!-])>(?![>=])', c)]
+                    if not eq and not (lt_ and gt_):
+                        bad.append('the byte count %s is only bounded on one side (%s): a buffer of a different size is accepted and %s' % (size, sizegate[0], 'part of the array is left uninitialised' if gt_ else 'copied past the allocation'))
                 if not typegate: bad.append('the element type / item size of the source buffer is not compared with the array\'s')
                 out.append(('R19.buf', oid, VIOLATED if bad else HOLDS, '; '.join(bad) if bad else 'gated by %s and %s' % (sizegate[0], typegate[0]), e['loc']))
     # (iii) numBytes vs shape x itemsize
